@@ -503,7 +503,7 @@ def run(ctx):
         models.append(lambda: ctx.mc("MC_RandomWalk.tla", "MC_RandomWalk_live.cfg", workers=4))
     ctx.parallel(models, width=3)
     jobs = build_jobs(ctx)
-    recs = pool.run_jobs(__name__, jobs)
+    recs = pool.run_jobs(__name__, jobs, reuse=True, abort=True)
     # the scale-regime records are large (n^3 encoded counts each): their own small batches, next to
     # the batches of the small records
     big = [k for k, j in enumerate(jobs) if j.get("big")]
